@@ -115,6 +115,8 @@ structure WellFormed (g : List Rec) (d : Delivered) : Prop where
   /-- every link endpoint names an existing item class and its index range lies inside the class size -/
   links : ∀ ty e src dst, Rec.link ty e src dst ∈ g → ∀ r, r ∈ src ∨ r ∈ dst →
       ∃ sz, nodeSize g d r.node = some sz ∧ r.beg ≤ r.last ∧ r.last < sz
+  /-- every link record has the shape of its link type (one-to-one ranges of equal length, one item to one range, …) -/
+  link_shape : ∀ ty e src dst, Rec.link ty e src dst ∈ g → linkShapeOk ty src dst = true
   /-- the constraints marked delivered are exactly those handed to the ModelAPI (type and name, in order) -/
   delivered : markedDelivered g = d.cons.map (fun c => (c.ty, c.name))
   /-- and the export states the constraint group the ModelAPI uses for each delivered type -/
@@ -125,7 +127,7 @@ theorem C20_validator_sound (g : List Rec) (d : Delivered) (h : checkGraph g d =
   simp only [Bool.and_eq_true, List.all_eq_true, List.mem_range, List.contains_iff_mem, beq_iff_eq] at h
   obtain ⟨⟨⟨⟨⟨⟨⟨⟨⟨⟨h1, h2⟩, hdv⟩, h3⟩, h4⟩, h5⟩, h6⟩, hv⟩, ho⟩, h7⟩, h8⟩ := h
   refine ⟨fun i hi => hasVar_spec g i true (h1 i hi), h2, hdv, ?_, ?_, ?_, ?_, fun i hi => hasObj_spec g i (h5 i hi),
-    ?_, ?_, ?_, ?_, ?_, ?_, ?_, ?_, ?_, ?_, h7, h8⟩
+    ?_, ?_, ?_, ?_, ?_, ?_, ?_, ?_, ?_, ?_, ?_, h7, h8⟩
   · intro i hm
     have := h6 _ hm
     simpa [recOk] using this
@@ -181,14 +183,18 @@ theorem C20_validator_sound (g : List Rec) (d : Delivered) (h : checkGraph g d =
     simp only [recOk, Bool.and_eq_true, List.all_eq_true] at this
     have hk : refOk g d r = true := by
       rcases hr with hr | hr
-      · exact this.1 r hr
-      · exact this.2 r hr
+      · exact this.1.1 r hr
+      · exact this.1.2 r hr
     unfold refOk at hk
     cases hsz : nodeSize g d r.node with
     | none => simp [hsz] at hk
     | some sz =>
       simp only [hsz, Bool.and_eq_true, decide_eq_true_eq] at hk
       exact ⟨sz, rfl, hk.1, hk.2⟩
+  · intro ty e src dst hm
+    have := h6 _ hm
+    simp only [recOk, Bool.and_eq_true] at this
+    exact this.2
 
 /-- Decoding a file: every line is a JSON object of a known record shape. -/
 def Decodes : List Str → List Rec → Prop
@@ -443,24 +449,27 @@ example : (String.utf8EncodeChar 'é').map (·.toNat) = utf8Char 'é' ∧ (Strin
 /-! ## (e) the EXPORTER as a transition system (audit [HIGH], round 5)
 
 `ModelExporter.lean`: events = variable added / updated, constraint stored in a keeper (`ExportConstraint`), constraint
-marked reformulated or unused, link record exported (guard: endpoints inside the node sizes *at that moment*), and the push
-(`ExportVars` of all variables, `AddAllUnbridged` + `ExportConStatus` per keeper, group records).  The clauses of the
-property are proved of the records this system writes, for EVERY event sequence (events violating a guard – the C++
-`assert`s – are no-ops). -/
+marked reformulated or unused (guard `check_index`, an `assert` in the C++), items `Add()`ed to an append-only value node,
+link record exported, and the push (`ExportVars` of all variables, `AddAllUnbridged` + `ExportConStatus` per keeper, group
+records).  The C++ `ExportLinkEntry` has NO range check and the model has none: a link event is accepted iff each endpoint is
+made of `NodeRange`s that were handed out (`covered`); that these lie inside the item counts is the proved invariant
+`EInv.createdIn` ("node size ≤ item count": ranges are handed out only for the item just created).  `CfgOk`: keeper types are
+distinct and differ from the names of the other value nodes.  The clauses are proved of the records this system writes,
+for EVERY event sequence. -/
 
 /-- the invariant holds after every event sequence -/
-theorem C20_exporter_invariant (cfg : Cfg) (hn : cfg.types.Nodup) (evs : List Ev) : EInv cfg (xevs cfg {} evs) :=
+theorem C20_exporter_invariant (cfg : Cfg) (hn : CfgOk cfg) (evs : List Ev) : EInv cfg (xevs cfg {} evs) :=
   einv_run cfg hn evs {} (einv_init cfg)
 
 /-- **every stored constraint appears**, numbered 0..n-1 in order: the creation records of a type are exactly these -/
-theorem C20_exporter_stored_appear (cfg : Cfg) (hn : cfg.types.Nodup) (evs : List Ev) (ty : Str) :
+theorem C20_exporter_stored_appear (cfg : Cfg) (hn : CfgOk cfg) (evs : List Ev) (ty : Str) :
     (xevs cfg {} evs).out.filter (isNew ty)
       = (List.range ((xevs cfg {} evs).cons ty).length).map (Rec.conNew ty) :=
   (C20_exporter_invariant cfg hn evs).news ty
 
 /-- **exactly one final status per stored constraint**: after the push the status records of a type are exactly one per
     stored constraint, in index order, saying delivered (`final`) iff it was neither reformulated nor unused -/
-theorem C20_exporter_status_records (cfg : Cfg) (hn : cfg.types.Nodup) (evs : List Ev) (ty : Str)
+theorem C20_exporter_status_records (cfg : Cfg) (hn : CfgOk cfg) (evs : List Ev) (ty : Str)
     (hfin : (xevs cfg {} evs).finished = true) (hty : ty ∈ cfg.types) :
     (xevs cfg {} evs).out.filter (isStatusTy ty)
       = (List.range ((xevs cfg {} evs).cons ty).length).map (fun k =>
@@ -470,7 +479,7 @@ theorem C20_exporter_status_records (cfg : Cfg) (hn : cfg.types.Nodup) (evs : Li
   simp
 
 /-- the same in the vocabulary of `WellFormed`: `countStatus = 1`, `countNew = 1`, index below `classSize` -/
-theorem C20_exporter_exactly_one_status (cfg : Cfg) (hn : cfg.types.Nodup) (evs : List Ev) (ty : Str) (i : Nat)
+theorem C20_exporter_exactly_one_status (cfg : Cfg) (hn : CfgOk cfg) (evs : List Ev) (ty : Str) (i : Nat)
     (hfin : (xevs cfg {} evs).finished = true) (hty : ty ∈ cfg.types) (hi : i < ((xevs cfg {} evs).cons ty).length) :
     countStatus (xevs cfg {} evs).out ty i = 1 ∧ countNew (xevs cfg {} evs).out ty i = 1
       ∧ i < classSize (xevs cfg {} evs).out ty := by
@@ -497,14 +506,15 @@ theorem C20_exporter_exactly_one_status (cfg : Cfg) (hn : cfg.types.Nodup) (evs 
 /-- **the set marked delivered = the set handed to the ModelAPI**: the records marked `final` are, in order, exactly the
     constraints `AddAllUnbridged` passed on, and these are exactly the stored constraints that are neither reformulated
     nor unused -/
-theorem C20_exporter_delivered (cfg : Cfg) (hn : cfg.types.Nodup) (evs : List Ev) (hfin : (xevs cfg {} evs).finished = true) :
+theorem C20_exporter_delivered (cfg : Cfg) (hn : CfgOk cfg) (evs : List Ev) (hfin : (xevs cfg {} evs).finished = true) :
     markedDelivered (xevs cfg {} evs).out = (xevs cfg {} evs).delivered.map (fun c => (c.ty, c.name)) ∧
     (xevs cfg {} evs).delivered = (allFinish cfg (xevs cfg {} evs).cons cfg.types).2 :=
   ((C20_exporter_invariant cfg hn evs).fin hfin).2
 
-/-- **link ranges lie inside the node sizes**: the guard is evaluated when the record is exported, node sizes only grow, so
-    every exported link endpoint lies inside the size its value node has at any later time (in particular at the end) -/
-theorem C20_exporter_links_inside (cfg : Cfg) (hn : cfg.types.Nodup) (evs : List Ev) (lty : Str) (e : Nat) (src dst : List NodeRef)
+/-- **link ranges lie inside the sizes of the item classes**: not by a guard (the C++ has none) but because every endpoint
+    is made of handed-out `NodeRange`s, each handed out for an item that exists (`EInv.createdIn`), and item counts only grow:
+    every exported link endpoint lies inside the item count of its class at export time and at any later time -/
+theorem C20_exporter_links_inside (cfg : Cfg) (hn : CfgOk cfg) (evs : List Ev) (lty : Str) (e : Nat) (src dst : List NodeRef)
     (hm : Rec.link lty e src dst ∈ (xevs cfg {} evs).out) (r : NodeRef) (hr : r ∈ src ∨ r ∈ dst) :
     ∃ sz, sizeNow cfg (xevs cfg {} evs) r.node = some sz ∧ r.beg ≤ r.last ∧ r.last < sz := by
   have h := (C20_exporter_invariant cfg hn evs).links lty e src dst hm r hr
@@ -516,16 +526,28 @@ theorem C20_exporter_links_inside (cfg : Cfg) (hn : cfg.types.Nodup) (evs : List
     exact ⟨sz, rfl, h.1, h.2⟩
 
 /-- **every flat variable appears and no record names a non-existing one** -/
-theorem C20_exporter_vars (cfg : Cfg) (hn : cfg.types.Nodup) (evs : List Ev) :
+theorem C20_exporter_vars (cfg : Cfg) (hn : CfgOk cfg) (evs : List Ev) :
     (∀ i, i < (xevs cfg {} evs).vars.length → ∃ b info, Rec.var i b info ∈ (xevs cfg {} evs).out) ∧
     (∀ i b info, Rec.var i b info ∈ (xevs cfg {} evs).out → i < (xevs cfg {} evs).vars.length) :=
   ⟨(C20_exporter_invariant cfg hn evs).vars1, (C20_exporter_invariant cfg hn evs).vars2⟩
 
+/-- every `NodeRange` ever handed out lies inside the item count of its class (node size ≤ item count) -/
+theorem C20_exporter_node_size_le_item_count (cfg : Cfg) (hn : CfgOk cfg) (evs : List Ev) (a : NodeRef)
+    (ha : a ∈ (xevs cfg {} evs).created) :
+    ∃ sz, sizeNow cfg (xevs cfg {} evs) a.node = some sz ∧ a.beg ≤ a.last ∧ a.last < sz := by
+  have h := (C20_exporter_invariant cfg hn evs).createdIn a ha
+  unfold refIn at h
+  cases hs : sizeNow cfg (xevs cfg {} evs) a.node with
+  | none => simp [hs] at h
+  | some sz =>
+    simp only [hs, Bool.and_eq_true, decide_eq_true_eq] at h
+    exact ⟨sz, rfl, h.1, h.2⟩
+
 /-- a concrete history: two keepers, `_abs 0` reformulated into two `_linge`, one `_linrange` delivered; the event with a bad
-    index and the link into a node that is still too small are rejected -/
-def exCfg : Cfg := ⟨[cl!"_linrange", cl!"_linge", cl!"_abs"], fun _ => 3, fun ty i => ty ++ (toString i).toList, [(cl!"src_cons()", 1)]⟩
+    index and the link whose endpoint `_linge [0,1]` is not (yet) made of handed-out ranges are rejected -/
+def exCfg : Cfg := ⟨[cl!"_linrange", cl!"_linge", cl!"_abs"], fun _ => 3, fun ty i => ty ++ (toString i).toList, [cl!"src_cons()"]⟩
 def exEvs : List Ev :=
-  [.addVar true ⟨0, false, false⟩, .addVar false ⟨0, false, true⟩, .store cl!"_abs", .store cl!"_linrange",
+  [.addVar true ⟨0, false, false⟩, .addVar false ⟨0, false, true⟩, .addItems cl!"src_cons()" 1, .store cl!"_abs", .store cl!"_linrange",
    .link cl!"One2ManyLink" 0 [⟨cl!"src_cons()", 0, 0⟩] [⟨cl!"_abs", 0, 0⟩],
    .link cl!"One2ManyLink" 1 [⟨cl!"_abs", 0, 0⟩] [⟨cl!"_linge", 0, 1⟩],        -- rejected: `_linge` is still empty
    .store cl!"_linge", .store cl!"_linge", .bridge cl!"_abs" 0, .bridge cl!"_abs" 7,  -- the second one is rejected
@@ -535,6 +557,9 @@ example : (xevs exCfg {} exEvs).rejected = 2 ∧ (xevs exCfg {} exEvs).finished 
     ∧ (xevs exCfg {} exEvs).delivered.map (·.name) = [cl!"_linrange0", cl!"_linge0", cl!"_linge1"]
     ∧ markedDelivered (xevs exCfg {} exEvs).out = [(cl!"_linrange", cl!"_linrange0"), (cl!"_linge", cl!"_linge0"), (cl!"_linge", cl!"_linge1")]
     ∧ countStatus (xevs exCfg {} exEvs).out cl!"_abs" 0 = 1 := by decide
-example : exCfg.types.Nodup := by decide
+example : CfgOk exCfg := by
+  refine ⟨by decide, ?_, ?_⟩
+  · intro ty h; simp [exCfg] at h; rcases h with h | h | h <;> subst h <;> decide
+  · intro n h; simp [exCfg] at h; subst h; decide
 
 end MpVerif.C20
